@@ -1,6 +1,7 @@
 package worldn
 
 import (
+	"encoding/json"
 	"fmt"
 	"io"
 	"os"
@@ -63,6 +64,9 @@ func (w *World) recoverFromCrash() bool {
 		}
 	}
 	w.dir = w.nextDir
+	if w.cfg.Legacy {
+		w.rewriteLegacy(filepath.Join(w.dir, "ResRelation.db"))
+	}
 	fo := w.faultsOn
 	w.faultsOn = false
 	err := w.startDaemon()
@@ -95,7 +99,7 @@ func (w *World) recoverFromCrash() bool {
 			v4, v6 := "", ""
 			if hasRec {
 				for _, r := range rec.Resources {
-					v4, v6 = r.IPv4, r.IPv6
+					v4, v6 = recIPs(r)
 				}
 			}
 			if !hasRec || v4 != p.ackV4 || v6 != p.ackV6 {
@@ -117,7 +121,8 @@ func (w *World) recoverFromCrash() bool {
 						}
 						if r, ok := recs[q]; ok && r.ok {
 							for _, x := range r.rec.Resources {
-								if (x.IPv4 != "" && x.IPv4 == p.ackV4) || (x.IPv6 != "" && x.IPv6 == p.ackV6) {
+								x4, x6 := recIPs(x)
+								if (x4 != "" && x4 == p.ackV4) || (x6 != "" && x6 == p.ackV6) {
 									// a record another pod left behind (its DEL released the pool but failed to delete the record) names the same address
 									fp = "acknowledged-add-not-owned-after-restart@address-claimed-by-stale-record"
 								}
@@ -141,7 +146,7 @@ func (w *World) recoverFromCrash() bool {
 				p.recCID = *rec.ContainerID
 			}
 			for _, r := range rec.Resources {
-				p.recV4, p.recV6 = r.IPv4, r.IPv6
+				p.recV4, p.recV6 = recIPs(r)
 			}
 		} else {
 			p.recCID, p.recV4, p.recV6 = "", "", ""
@@ -209,4 +214,52 @@ func describeRec(r daemon.PodResources) string {
 		st = fmt.Sprint(r.PodInfo.IPStickTime)
 	}
 	return c + " " + strings.Join(ips, ",") + " stick=" + st
+}
+
+// rewriteLegacy rewrites every stored record into the shape an older daemon version wrote:
+// {"type":"eniIp","id":"<mac>.<ipv4>"} with no interface id and no separate address fields.
+func (w *World) rewriteLegacy(path string) {
+	db, err := bolt.Open(path, 0o600, nil)
+	if err != nil {
+		w.run.Res.Infra = "legacy rewrite: " + err.Error()
+		return
+	}
+	defer db.Close()
+	_ = db.Update(func(tx *bolt.Tx) error {
+		b := tx.Bucket([]byte("relation"))
+		if b == nil {
+			return nil
+		}
+		type kv struct{ k, v []byte }
+		var out []kv
+		_ = b.ForEach(func(k, v []byte) error {
+			var rec daemon.PodResources
+			if json.Unmarshal(v, &rec) != nil {
+				return nil
+			}
+			for i, r := range rec.Resources {
+				if r.Type == daemon.ResourceTypeENIIP && r.ENIMAC != "" && r.IPv4 != "" {
+					rec.Resources[i] = daemon.ResourceItem{Type: r.Type, ID: r.ENIMAC + "." + r.IPv4}
+				}
+			}
+			nv, _ := json.Marshal(rec)
+			out = append(out, kv{append([]byte{}, k...), nv})
+			return nil
+		})
+		for _, e := range out {
+			_ = b.Put(e.k, e.v)
+		}
+		return nil
+	})
+	w.run.Probe("legacy-records-at-restart")
+}
+
+// recIPs reads the addresses of a stored resource, legacy shape included.
+func recIPs(r daemon.ResourceItem) (string, string) {
+	if r.IPv4 == "" && r.IPv6 == "" && r.ENIID == "" {
+		if i := strings.Index(r.ID, "."); i > 0 {
+			return r.ID[i+1:], ""
+		}
+	}
+	return r.IPv4, r.IPv6
 }
